@@ -504,8 +504,10 @@ def finish(res, tier, seed, level, rule, t0, assumptions=None, min_cases=1, extr
     broken = None
     if res.cases < min_cases or not res.samples or distinct < 2:
         broken = f"too little observed: cases={res.cases} distinct={distinct} samples={len(res.samples)}"
-    os.makedirs(os.path.join(VERIF, "evidence"), exist_ok=True)
-    with open(os.path.join(VERIF, "evidence", f"{prop}.json"), "w") as f:
+    # (runs against a scratch copy of the code under test - tools/try_mutant.py - keep their evidence to themselves)
+    evdir = os.environ.get("VERIF_EVIDENCE_DIR") or os.path.join(VERIF, "evidence")
+    os.makedirs(evdir, exist_ok=True)
+    with open(os.path.join(evdir, f"{prop}.json"), "w") as f:
         json.dump(ev, f, indent=1, default=str)
     for l in lines:
         print(l)
